@@ -62,6 +62,10 @@ class SpecFn(PyObj):
 class TypeObj(PyObj):
     def __init__(self, ty): self.ty = ty
 
+class CoroV(PyObj):
+    """a coroutine object created by calling an `async def` without awaiting it (nothing has run yet)"""
+    def __init__(self, f, args, kwargs): self.f, self.args, self.kwargs = f, args, kwargs
+
 class ExcV:
     """python-level exception value"""
     def __init__(self, cls, args=(), attrs=None): self.cls, self.args, self.attrs = cls, list(args), dict(attrs or {})
@@ -132,6 +136,7 @@ class World:
         self.ext_methods = {}       # 'Cls.method' -> Contract-like dict for code outside reach (assumed; listed)
         self.partial_types = {}     # function name -> record type modelling functools.partial(f, **kw) objects
         self.definitional = set()   # macro names that are defining equations of ufuncs (may be instantiated as lemmas)
+        self.coroutine_objects = False   # True: a call of an `async def` that is not directly awaited only creates a coroutine object
         self.opaque = {}       # dotted callee name -> ret type string (uninterpreted pure function of its args; assumption)
 
     # --- declarations
@@ -144,7 +149,9 @@ class World:
                 except Exception:
                     if isinstance(st.value, ast.Call) and isinstance(st.value.func, ast.Attribute) and st.value.func.attr == 'auto':
                         val = len(members) + 1
-                    else: continue
+                    else:
+                        try: val = eval(compile(ast.Expression(st.value), '<enum>', 'eval'), {'__builtins__': {}}, dict(zip(members, values)))
+                        except Exception: continue
                 members.append(st.targets[0].id); values.append(val)
         bases = [ast.unparse(b) for b in node.bases]
         intv = any(b == 'int' or 'IntEnum' in b or 'IntFlag' in b for b in bases) or all(isinstance(v, int) for v in values) and any('Flag' in b for b in bases)
@@ -158,6 +165,9 @@ class World:
         members = {}
         for st in node.body:
             if isinstance(st, ast.Assign) and len(st.targets) == 1 and isinstance(st.targets[0], ast.Name) and not st.targets[0].id.startswith('_'):
+                if isinstance(st.value, ast.Call) and isinstance(st.value.func, ast.Attribute) and st.value.func.attr == 'auto':
+                    hi = max(members.values(), default=0)      # enum.auto() in a Flag: the next power of two above the highest member
+                    members[st.targets[0].id] = 1 << hi.bit_length(); continue
                 try: members[st.targets[0].id] = int(eval(compile(ast.Expression(st.value), '<flag>', 'eval'), {'__builtins__': {}}, dict(members)))
                 except Exception: pass
         self.flag_src[name] = (rel, cls, members); self.types[name] = TFlags
@@ -272,7 +282,7 @@ class Exec:
         self.ground = z3.Solver(); self.ground.set('timeout', int(os.environ.get('PYVC_GROUND_MS', 300)))     # quantifier-free facts only: fast branch pruning
         self.timeout_ms = timeout_ms
         self.st = State(); self.old = None
-        self.spec = 0; self.nofork = 0; self.bseq = 0
+        self.spec = 0; self.nofork = 0; self.bseq = 0; self.awaited = set()
         self.facts_log = None       # when not None: list collecting assumed facts (for generalisation)
         self.binders = []           # bound variables in scope (comprehension elements)
         self.exc_stack = []
@@ -467,7 +477,7 @@ class Exec:
 
     # ---------------- expressions
     def eval(self, node):
-        if self.w.opaque_exprs and isinstance(node, (ast.Attribute, ast.Name, ast.Subscript)):
+        if self.w.opaque_exprs and isinstance(node, (ast.Attribute, ast.Name, ast.Subscript, ast.Call)):
             txt = ast.unparse(node)
             if txt in self.w.opaque_exprs:
                 ty = self.w.ty(self.w.opaque_exprs[txt])
@@ -511,6 +521,20 @@ class Exec:
         return V(TTuple([v.ty for v in vals]), vals)
 
     def e_List(self, n):
+        if any(isinstance(e, ast.Starred) for e in n.elts):
+            # [a, *xs, b, *ys]: concatenation of literal runs and the starred sequences
+            acc = None; run = []
+            def flush(acc, run):
+                if not run: return acc
+                lit = seq_literal(run, T._join_all([v.ty for v in run]))
+                return lit if acc is None else self.seq_concat(acc, lit)
+            for e in n.elts:
+                if isinstance(e, ast.Starred):
+                    acc = flush(acc, run); run = []
+                    sv = self.materialize(self.iter_of(self.eval(e.value)))
+                    acc = sv if acc is None else self.seq_concat(acc, sv)
+                else: run.append(self.val(self.eval(e)))
+            return flush(acc, run)
         vals = [self.val(self.eval(e)) for e in n.elts]
         if not vals:
             hint = self.frame.get('empty_hint')
@@ -713,7 +737,11 @@ class Exec:
     def e_Lambda(self, n): return LambdaV(n, dict(self.st.env))
     def e_Await(self, n):
         # cooperative scheduling: awaiting a coroutine with a contract is a call; environment awaitables are handled by their contracts
-        return self.eval(n.value)
+        if isinstance(n.value, ast.Call):
+            self.awaited.add(id(n.value))
+        v = self.eval(n.value)
+        if isinstance(v, CoroV): raise Unsupported('await of a stored coroutine object')
+        return v
 
     def e_Compare(self, n):
         left = self.eval(n.left); res = None
@@ -758,6 +786,13 @@ class Exec:
             return x, y
         if isinstance(a.ty, TEnum) and a.ty == b.ty and a.ty.ordered:
             return a.ty.index_term(a.t), a.ty.index_term(b.t)
+        if isinstance(a.ty, TTuple) and isinstance(b.ty, TTuple) and len(a.t) == len(b.t) and a.t:
+            # lexicographic order encoded as an integer rank comparison:  a < b  iff  lex(a, b)
+            lt = z3.BoolVal(False); eq = z3.BoolVal(True)
+            for x, y in zip(a.t, b.t):
+                xs, ys = self.ord_terms(x, y)
+                lt = z3.Or(lt, z3.And(eq, xs < ys)); eq = z3.And(eq, xs == ys)
+            return z3.If(lt, z3.IntVal(0), z3.If(eq, z3.IntVal(1), z3.IntVal(2))), z3.IntVal(1)
         if a.ty is TStr and b.ty is TStr:
             raise Unsupported('string ordering')
         raise Unsupported('ordering between %r and %r' % (a.ty, b.ty))
@@ -851,6 +886,13 @@ class Exec:
             if opname == 'Div':
                 if self.branch(y == 0, exceptional=True): self.raise_exc('ZeroDivisionError')
                 return V(TFloat, z3.ToReal(x) / z3.ToReal(y))
+            if opname in ('LShift', 'RShift', 'BitOr', 'BitAnd', 'BitXor'):
+                xs, ys = z3.simplify(x), z3.simplify(y)
+                if z3.is_int_value(xs) and z3.is_int_value(ys):
+                    import operator as _op
+                    f_ = {'LShift': _op.lshift, 'RShift': _op.rshift, 'BitOr': _op.or_, 'BitAnd': _op.and_, 'BitXor': _op.xor}[opname]
+                    return vint(z3.IntVal(f_(xs.as_long(), ys.as_long())))
+                if opname == 'LShift' and z3.is_int_value(ys) and 0 <= ys.as_long() <= 64: return vint(x * (2 ** ys.as_long()))
             raise Unsupported('int op %s' % opname)
         if a.ty is TFlags or b.ty is TFlags:
             x = a.t if a.ty is TFlags else z3.Int2BV(coerce(a, TInt).t, 64); y = b.t if b.ty is TFlags else z3.Int2BV(coerce(b, TInt).t, 64)
@@ -872,6 +914,7 @@ class Exec:
                 return V(TFloat, x / y)
             raise Unsupported('float op %s' % opname)
         if a.ty is TStr and b.ty is TStr and opname == 'Add': return V(TStr, z3.Concat(a.t, b.t))
+        if a.ty is TBytes and b.ty is TBytes and opname == 'Add': return V(TBytes, z3.Concat(a.t, b.t))
         if a.ty is TStr and opname == 'Mod':
             self.vf.note_assumption('%-formatting treated as an arbitrary string')
             return V(TStr, fresh('fmt', z3.StringSort()))
@@ -969,9 +1012,15 @@ class Exec:
             if attr in obj.t: return obj.t[attr]
             if attr == '_replace': return BoundBuiltin(obj, '_replace')
         if isinstance(ty, TEnum):
-            if attr == 'value':
+            if attr in ('value', '_value_'):
                 if ty.intvalued or all(isinstance(x, int) for x in ty.values): return vint(ty.value_term(obj.t))
-                return self.to_str(obj)
+                if all(isinstance(x, str) for x in ty.values): return self.to_str(obj)
+                if all(isinstance(x, bytes) for x in ty.values):
+                    t_ = zs(ty.values[-1].decode('latin-1'))
+                    for k_ in range(len(ty.values) - 2, -1, -1):
+                        t_ = z3.If(obj.t == ty.const(ty.members[k_]), zs(ty.values[k_].decode('latin-1')), t_)
+                    return V(TBytes, t_)
+                raise Unsupported('enum value of a non int/str/bytes enum')
             if attr == 'name':
                 r = zs(ty.members[-1])
                 for m in ty.members[-2::-1]: r = z3.If(obj.t == ty.const(m), zs(m), r)
@@ -1007,7 +1056,7 @@ class Exec:
                             finally: self.frames, self.st = saved
                         return self.vf.modconst[key]
             raise Unsupported('attribute %s on %r' % (attr, ty))
-        if ty is TStr or isinstance(ty, (TSeq, TSet, TMap, TTuple, TOMap)) or ty is TInt:
+        if ty is TStr or ty is TBytes or isinstance(ty, (TSeq, TSet, TMap, TTuple, TOMap)) or ty is TInt:
             return BoundBuiltin(obj, attr, node.value if node is not None else None)
         raise Unsupported('attribute %s on %r' % (attr, ty))
 
@@ -1154,6 +1203,13 @@ class Exec:
         if len(n.generators) != 1 or n.generators[0].ifs or n.generators[0].is_async:
             raise Unsupported('comprehension with filter / nesting')
         g = n.generators[0]
+        c = self.frame.get('contract')
+        if c is not None and not self.spec and not self.nofork and not self.frame.get('inlined'):
+            k = self.call_counts.get('comp', 0); lc = c.loops.get('comp#%d' % k)
+            if lc is not None:
+                self.call_counts['comp'] = k + 1
+                return self.comprehension_loop(n, g, lc, '%s/comp%d' % (self.vf.cur.oname, k))
+            self.call_counts['comp'] = k + 1
         it = self.iter_of(self.eval(g.iter))
         saved_env = self.st.env
         ex = self
@@ -1165,6 +1221,34 @@ class Exec:
             finally:
                 ex.st.env = saved_env
         return IterV(it.ln, get)
+
+    def comprehension_loop(self, n, g, lc, base):
+        """[elt for target in iter] whose element expression has effects (calls with `modifies`): executed as the loop
+        acc = []; for target in iter: acc.append(elt)   cut by the sidecar invariant (names: acc, index i, seq its)"""
+        it = self.iter_of(self.eval(g.iter))
+        sv = self.materialize(it)
+        accn, idxn, seqn = lc.get('acc', 'acc'), lc.get('index', 'i'), lc.get('seq', 'its')
+        ety = self.w.ty(lc['elem_type'])
+        self.st.env[seqn] = sv; self.st.env[accn] = seq_literal([], ety); self.st.env[idxn] = vint(0)
+        for k, inv in enumerate(lc['invariant']):
+            self.prove(self.eval_spec(inv), '%s/inv-init#%d' % (base, k), 'inv-init', inv)
+        facts = []
+        acc = havoc(TSeq(ety), accn, facts); i = fresh(idxn, z3.IntSort()); facts += [i >= 0, i <= sv.t[0]]
+        for hf in lc.get('modifies', []):
+            cls, fld = hf.split('.'); fty = self.w.ty(self.w.classes[cls][fld]); self.heap_field(cls, fld, fty)
+            self.st.heap[hf] = fresh('heap_' + cls + '_' + fld, z3.ArraySort(sort_of(TRef(cls)), sort_of(fty)))
+        for f in facts: self.assume(f)
+        self.st.env[accn] = acc; self.st.env[idxn] = vint(i)
+        for inv in lc['invariant']: self.assume(self.eval_spec(inv))
+        if self.branch(i < sv.t[0]):
+            self.assign(g.target, seq_get(sv, i))
+            x = self.co(self.eval(n.elt), ety)
+            acc2 = V(acc.ty, (acc.t[0] + 1, z3.Store(acc.t[1], acc.t[0], pack(x))))
+            self.st.env[accn] = acc2; self.st.env[idxn] = vint(i + 1)
+            for k, inv in enumerate(lc['invariant']):
+                self.prove(self.eval_spec(inv), '%s/inv-step#%d' % (base, k), 'inv-step', inv)
+            raise PathEnd()
+        return acc
 
     def iter_of(self, x):
         """anything iterable in order -> IterV"""
@@ -1233,6 +1317,11 @@ class Exec:
             if isinstance(f, (FuncRef, BoundMethod)): return self.star_call(f, args, kwargs, node)
             raise Unsupported('star-args call to %s' % type(f).__name__)
         if isinstance(f, BoundBuiltin): return call_method_builtin(self, f, args, kwargs, node)
+        if self.w.coroutine_objects and isinstance(f, (FuncRef, BoundMethod)) and node is not None and id(node) not in self.awaited:
+            fn_ = f.node if isinstance(f, FuncRef) else f.func.node
+            if isinstance(fn_, ast.AsyncFunctionDef):
+                # calling a coroutine function without awaiting it runs nothing: it only creates a coroutine object
+                return CoroV(f, [self.val(a) if isinstance(a, V) else a for a in args], dict(kwargs))
         if isinstance(f, FuncRef): return self.call_func(f, args, kwargs, node)
         if isinstance(f, BoundMethod):
             return self.call_func(f.func, [f.recv] + args, kwargs, node, recv_node=f.recv_node)
